@@ -744,10 +744,12 @@ Proof.
   intros Hn Hl. unfold ones_like. rewrite (nth_map_lt _ _ _ []) by exact Hn.
   rewrite (nth_map_lt _ _ _ 0) by exact Hl. reflexivity.
 Qed.
-Lemma fold_ones_at x c y s :
-  (c < C)%nat -> fold_at RN g (ones_like RN (unfold RN g x)) c y s = cnt g y s.
+Lemma fold_ones_general (data : list (list R)) c y s :
+  (c < C)%nat -> length data = (C * (KH * KW))%nat ->
+  (forall n, (n < C * (KH * KW))%nat -> length (nth n data []) = (HO * WO)%nat) ->
+  fold_at RN g (ones_like RN data) c y s = cnt g y s.
 Proof.
-  intros Hc. rewrite fold_at_Rsum. unfold cnt.
+  intros Hc HL HR. rewrite fold_at_Rsum. unfold cnt. fold KH KW HO WO.
   apply Rsum_ext; intros i Hi. apply Rsum_ext; intros j Hj.
   apply Rsum_ext; intros oh Hoh. apply Rsum_ext; intros ow How.
   destruct (reads g i j oh ow y s); [|reflexivity].
@@ -755,8 +757,13 @@ Proof.
   { replace ((c * KH + i) * KW + j)%nat with (c * (KH * KW) + (i * KW + j))%nat by nia.
     apply flat_index_lt; [exact Hc|]. apply flat_index_lt; assumption. }
   apply ones_like_at.
-  - rewrite (unfold_length g). exact Hn.
-  - rewrite (unfold_row_length g) by exact Hn. apply flat_index_lt; assumption.
+  - rewrite HL. exact Hn.
+  - rewrite (HR _ Hn). apply flat_index_lt; assumption.
+Qed.
+Lemma fold_ones_at x c y s :
+  (c < C)%nat -> fold_at RN g (ones_like RN (unfold RN g x)) c y s = cnt g y s.
+Proof.
+  intros Hc. apply fold_ones_general; [exact Hc|apply (unfold_length g)|apply (unfold_row_length g)].
 Qed.
 
 Lemma cnt_nonneg y s : 0 <= cnt g y s.
@@ -821,6 +828,19 @@ Proof.
   rewrite (map2_nth _ _ _ _ [] []) by lia.
   rewrite (map2_nth _ _ _ _ 0 0) by lia.
   rewrite !fold_nth by assumption. reflexivity.
+Qed.
+
+(* like_input on ANY data in synaptic layout: the entries that were read from an image position are averaged *)
+Theorem conv_like_input_spec (data : list (list R)) c y s :
+  (c < C)%nat -> (y < Z.to_nat (gH g))%nat -> (s < Z.to_nat (gW g))%nat ->
+  length data = (C * (KH * KW))%nat ->
+  (forall n, (n < C * (KH * KW))%nat -> length (nth n data []) = (HO * WO)%nat) ->
+  img_at (conv_like_input RN g data) c y s =
+  Rsum KH (fun i => Rsum KW (fun j => Rsum HO (fun oh => Rsum WO (fun ow =>
+    if reads g i j oh ow y s then mat_at data ((c * KH + i) * KW + j) (oh * WO + ow) else 0)))) / cnt g y s.
+Proof.
+  intros Hc Hy Hs HL HR. unfold img_at. rewrite like_input_nth by assumption.
+  rewrite fold_ones_general by assumption. rewrite fold_at_Rsum. reflexivity.
 Qed.
 
 (* mapping an input to synaptic layout and back returns it on every input position the connection reads *)
@@ -1158,4 +1178,66 @@ Proof.
     rewrite Hy. reflexivity.
   - change (nth o y 0 = Rsum I (fun i => nth o (nth i m []) 0 * nth i (nth o W []) 0) + 0).
     rewrite Hy. lra.
+Qed.
+
+(* ==================================================================== totality on the property's domain *)
+Lemma all_pos_to_nat s : all_pos s = true -> prodn (map Z.to_nat s) = Z.to_nat (prodZ s) /\ (0 < prodZ s)%Z.
+Proof.
+  induction s as [|z s IH]; simpl; intros H; [split; [reflexivity|lia]|].
+  apply andb_true_iff in H. destruct H as [Hz Hs]. apply Z.ltb_lt in Hz. destruct (IH Hs) as [E P].
+  split; [rewrite E, Z2Nat.inj_mul by lia; reflexivity|nia].
+Qed.
+(* every positive shape / batch size is accepted and forward succeeds on inputs of the advertised shape *)
+Theorem dense_total ins outs B w b (xd : list (T RN)) :
+  all_pos ins = true -> all_pos outs = true -> (0 < B)%Z ->
+  exists c, dense_ctor RN ins outs B w b = Ok c /\
+            exists out, dense_forward RN c (@mkT RN (Z.to_nat B :: map Z.to_nat ins) xd) = Ok out.
+Proof.
+  intros Hi Ho HB. unfold dense_ctor. rewrite Hi, Ho, (proj2 (Z.ltb_lt 0 B) HB). simpl.
+  eexists. split; [reflexivity|]. unfold dense_forward. simpl. rewrite !Nat.eqb_refl. simpl. eexists. reflexivity.
+Qed.
+Theorem direct_total sh B w b (xd : list (T RN)) :
+  all_pos sh = true -> (0 < B)%Z ->
+  exists c, direct_ctor RN sh B w b = Ok c /\
+            exists out, direct_forward RN c (@mkT RN (Z.to_nat B :: map Z.to_nat sh) xd) = Ok out.
+Proof.
+  intros Hs HB. unfold direct_ctor. rewrite Hs, (proj2 (Z.ltb_lt 0 B) HB). simpl.
+  eexists. split; [reflexivity|]. unfold direct_forward. simpl. rewrite !Nat.eqb_refl. simpl. eexists. reflexivity.
+Qed.
+
+Lemma shape_eqb_refl a : shape_eqb a a = true.
+Proof.
+  unfold shape_eqb. rewrite Nat.eqb_refl. simpl. induction a as [|x a IH]; simpl; [reflexivity|].
+  rewrite Nat.eqb_refl. exact IH.
+Qed.
+
+(* Every geometry with positive sizes, non-negative padding and a non-empty output (by the documented integer formula)
+   is accepted by the constructor, and forward succeeds on every input of the advertised input shape: the
+   cross-correlation theorem above therefore covers the whole geometry grid. *)
+Theorem conv_total g B w b :
+  (0 < gH g)%Z -> (0 < gW g)%Z -> (0 < gC g)%Z -> (0 < gF g)%Z -> (0 < kH g)%Z -> (0 < kW g)%Z ->
+  (0 < sH g)%Z -> (0 < sW g)%Z -> (0 <= pH g)%Z -> (0 <= pW g)%Z -> (0 < dH g)%Z -> (0 < dW g)%Z -> (0 < B)%Z ->
+  (1 <= (gH g + 2 * pH g - dH g * (kH g - 1) - 1) / sH g + 1)%Z ->
+  (1 <= (gW g + 2 * pW g - dW g * (kW g - 1) - 1) / sW g + 1)%Z ->
+  exists c, conv_ctor RN g B w b = Ok c /\
+    forall xs, exists outs,
+      conv_forward RN c [Z.to_nat B; Z.to_nat (gC g); Z.to_nat (gH g); Z.to_nat (gW g)] xs = Ok outs.
+Proof.
+  intros H1 H2 H3 H4 H5 H6 H7 H8 H9 H10 H11 H12 H13 Ho1 Ho2.
+  assert (Hh : outH RN g = ((gH g + 2 * pH g - dH g * (kH g - 1) - 1) / sH g + 1)%Z) by (apply outsz_code_spec; exact H7).
+  assert (Hw : outW RN g = ((gW g + 2 * pW g - dW g * (kW g - 1) - 1) / sW g + 1)%Z) by (apply outsz_code_spec; exact H8).
+  assert (E : conv_ctor RN g B w b = Ok (mkConv RN g (Z.to_nat B) w b)).
+  { unfold conv_ctor.
+    assert (Hc : negb (all_pos [gH g; gW g; gC g; gF g; kH g; kW g; sH g; sW g; dH g; dW g])
+                 || (pH g <? 0)%Z || (pW g <? 0)%Z || negb (0 <? gC g * (kH g * kW g))%Z
+                 || negb (0 <? outH RN g * outW RN g)%Z || negb (0 <? B)%Z = false).
+    { unfold all_pos. simpl forallb.
+      rewrite !(proj2 (Z.ltb_lt 0 _)) by (try assumption; try nia; rewrite Hh, Hw; nia).
+      rewrite !(proj2 (Z.ltb_ge _ 0)) by assumption. reflexivity. }
+    rewrite Hc. reflexivity. }
+  eexists. split; [exact E|]. intros xs. eexists. unfold conv_forward. simpl c_g. simpl c_B.
+  rewrite shape_eqb_refl. simpl negb.
+  assert (Hn : (outH RN g <=? 0)%Z || (outW RN g <=? 0)%Z = false).
+  { rewrite !(proj2 (Z.leb_gt _ _)) by (rewrite ?Hh, ?Hw; lia). reflexivity. }
+  rewrite Hn. reflexivity.
 Qed.
